@@ -26,7 +26,13 @@ def pattern_predicate_table(m, func, body_or_expr, npos, cx, is_body):
     pairing = {}
     if is_body:
         from ..normalize import unroll_const_loops
+        import copy as _copy
         body_or_expr = unroll_const_loops(body_or_expr)        # a loop over the positions with literal bounds
+        if any(x["kind"] == "VarDecl" for x in walk(body_or_expr)):
+            # the rounds declare their own copies of the body's locals: read them in the unrolled body
+            f2 = _copy.copy(func)
+            f2.body = body_or_expr
+            cx = FuncCtx(m, f2)
 
     def classify(n):
         n = strip(n, casts=True)
@@ -95,7 +101,14 @@ class _Unclassified(Exception):
 
 
 def _discover(n, classify, pairing):
+    from ..vals import is_assert_stmt
+    skip = set()
     for x in walk(n):
+        if is_assert_stmt(x):
+            skip |= {id(y) for y in walk(x)}
+    for x in walk(n):
+        if id(x) in skip:
+            continue
         if x["kind"] == "BinaryOperator" and x.get("opcode") in ("==", "!="):
             try:
                 kind, idx, val, neg = classify(x)
